@@ -36,6 +36,10 @@ def run(ctx):
         return morph.observe(c, 8 + ((lib.vid(c) // 4) % 2), random.Random(lib.vid(c)), with_volume=True)
     sub = cases if ctx.tier != "quick" else cases[::4]
     ctx.run_cases("extreme-scale-factors", sub, path, execute_extreme, "Judge_Morph", lambda c, o, w: w + ":scale-%s" % ("1e-6" if (lib.vid(c) // 4) % 2 == 0 else "3e4"), nontrivial, per_case_timeout=120)
+    def execute_far(c):
+        return morph.observe(c, 11, random.Random(lib.vid(c)), with_volume=True)
+    sub = cases if ctx.tier != "quick" else cases[::4]
+    ctx.run_cases("small-and-far-from-the-origin", sub, path, execute_far, "Judge_Morph", lambda c, o, w: w + ":far", nontrivial, per_case_timeout=120)
     if ctx.tier != "quick":      # every tree under a second transformation
         def execute2(c):
             return morph.observe(c, 2 + ((c["motion"] + 3) % 6), random.Random(lib.vid(c)), with_volume=True)
@@ -53,6 +57,8 @@ def replay(ctx, rec):
     c = rec["case"]
     p = ctx.write_cases("replay", [c])
     ex = (lambda cc: morph.observe_derived(cc, random.Random(lib.vid(cc)))) if rec.get("stage", "").startswith("derived") else execute
+    if rec.get("stage", "").startswith("small-and-far"):
+        ex = lambda cc: morph.observe(cc, 11, random.Random(lib.vid(cc)), with_volume=True)
     if rec.get("stage", "").startswith("extreme"):
         ex = lambda cc: morph.observe(cc, 8 + ((lib.vid(cc) // 4) % 2), random.Random(lib.vid(cc)), with_volume=True)
     ctx.run_cases("replay", [c], p, ex, "Judge_Morph", keyfn)
